@@ -271,6 +271,20 @@ Fixpoint target_chain_s (t : sty) (ks : list sstep) : option sty :=
   | k :: rest => match target_step_s t k with Some t' => target_chain_s t' rest | None => None end
   end.
 
+(* "The loop for el := range arr iterates over all elements of the array";
+   "for key := range map iterates over all map keys"; "for ch := range str
+   iterates over all characters of the string"; ranging over a num counts.
+   The loop variable is a variable of that type (untyped empties defaulted). *)
+Definition range_elem_s (t : sty) : option sty :=
+  match t with
+  | SNum => Some SNum
+  | SString => Some SString
+  | SMap _ | SEmptyMap => Some SString
+  | SArr s => Some (defaults s)
+  | SEmptyArr => Some SAny
+  | _ => None
+  end.
+
 Definition kjoin (a b : kind) : kind := match a, b with KConst, KConst => KConst | _, _ => KVar end.
 
 Fixpoint all_some {A} (l : list (option A)) : option (list A) :=
@@ -346,6 +360,11 @@ Fixpoint spec_tc (e : expr) : option (kind * sty) :=
       | Some (k, SAny) => if negb (sty_eqb t SAny) && closed t then Some (k, t) else None
       | _ => None
       end
+  | ELoopVar rng =>
+      match spec_tc rng with
+      | Some (_, t) => match range_elem_s t with Some s => Some (KVar, s) | None => None end
+      | None => None
+      end
   end.
 
 (* verdict of a statement context; [static]: type the context ends with,
@@ -401,11 +420,7 @@ Definition spec_check (c : ctx) (e : expr) : sresult :=
   | CCond => match v with Some (_, SBool) => SAccept SBool SBool | _ => SReject end
   | CRange =>
       match v with
-      | Some (_, SNum) => SAccept SNum SNum
-      | Some (_, SString) => SAccept SString SString
-      | Some (_, SMap _) | Some (_, SEmptyMap) => SAccept SString SString
-      | Some (_, SArr s) => SAccept (defaults s) (defaults s)
-      | Some (_, SEmptyArr) => SAccept SAny SAny
-      | _ => SReject
+      | Some (_, t) => match range_elem_s t with Some s => SAccept s s | None => SReject end
+      | None => SReject
       end
   end.
